@@ -134,6 +134,9 @@ package swarm
 //@ loop 0 invariant called(dialPeer, 0) ==> !nth(network.GetNoDial(ctx), 0)
 //@ noframe
 
+// (trusted: the body shifts elements inside a backing array; proving the table invariant across that needs a
+// no-aliasing invariant between the per-peer slices that the heap model does not carry. A change inside removeConn
+// is therefore NOT detected - listed under the assumptions of C06/C12/C04.)
 //@ func (s *Swarm) removeConn
 //@ prop C12 C06 C04
 //@ trusted
